@@ -1130,6 +1130,30 @@ def witness_packages():
     return {k: v for k, v in all_witnesses().items() if k not in REPAIRED}
 
 
+def star_cycle_dependents(pkg):
+    """Modules on a cycle of wildcard imports, and every module that imports (in any form) from one of them, transitively.  Back-and-forth
+    wildcard imports are what the loader's own comment calls mishandled; the identity of the alias objects decides there (cyclic stream)."""
+    star, anyedge = {}, {}
+    for m, st in stmt_tags(pkg):
+        me = dotted(m["path"])
+        if st[0] == "star":
+            star.setdefault(me, set()).add(dotted(st[1])); anyedge.setdefault(me, set()).add(dotted(st[1]))
+        elif st[0] == "from":
+            anyedge.setdefault(me, set()).update({dotted(st[1]), dotted(st[1] + [st[2]])})
+        elif st[0] == "import":
+            anyedge.setdefault(me, set()).add(dotted(st[1]))
+
+    def reach(g, a):
+        seen, todo = set(), list(g.get(a, ()))
+        while todo:
+            x = todo.pop()
+            if x not in seen:
+                seen.add(x); todo.extend(g.get(x, ()))
+        return seen
+    cyc = {a for a in star if a in reach(star, a)}
+    return {dotted(m["path"]) for m in pkg["modules"] if dotted(m["path"]) in cyc or reach(anyedge, dotted(m["path"])) & cyc}
+
+
 def has_stmt(pkg, tag):
     def walk(st):
         if st[0] == tag:
@@ -1202,7 +1226,7 @@ def f5_signature(x, oracle):
     return last == n and parent in oracle["modules"] and oracle["modules"][parent]["all"] is None
 
 
-def classify(pkg, view, oracle, ml, ms_view, dmi, leak):
+def classify(pkg, view, oracle, ml, ms_view, dmi, f5_model):
     """Yield (diff, finding id | None) for every difference between griffe.load and the interpreter."""
     d = diff_views(view, oracle)
     if view["error"]:
@@ -1224,7 +1248,9 @@ def classify(pkg, view, oracle, ml, ms_view, dmi, leak):
             out.append((x, "C05-F7"))
         elif in_sched:
             # the dependency-order schedule of the same per-module rules differs from CPython in the same way
-            if f5_signature(x, oracle):
+            if f5_signature(x, oracle) or (f5_model and not dmi):
+                # by signature (a submodule attribute the import system binds: outside py_import), or because the model's predicate holds and
+                # the model reproduces Griffe on the whole package (the missing submodule name propagates through imports and __all__ sources)
                 out.append((x, "C05-F5"))
             elif same_line and not dmi:
                 out.append((x, "C05-F4"))
@@ -1368,6 +1394,9 @@ def check_packages(ctx, pkgs, stream, direct=True):
         wfr = outs[NMODEL * i + 3]
         # the hypotheses of the composition theorem (C05_composition), evaluated by the extracted model: [static, on CPython's run, conclusion]
         wf = wfr[0] == "ok" and bool(wfr[1]) and bool(wfr[2])
+        # finding F5's exact predicate, from the extracted model: a package without __all__ binds one of its public submodules by a statement
+        # the visitor does not record (`from . import sub`)
+        f5_model = wfr[0] == "ok" and not bool(wfr[5])
         if direct:
             ctx.observe("composition_hypotheses", ("py_import-error" + ("" if wfr[1] else "+not-wf_prog")) if wfr[0] != "ok" else
                         "hold" if wf else "not-wf_prog" if not wfr[1] else "not-wf_run")
@@ -1394,6 +1423,8 @@ def check_packages(ctx, pkgs, stream, direct=True):
             if not direct:
                 # cyclic packages: whether a chain through a cycle resolves depends on resolution order and caching (C06's subject)
                 # ... and a submodule hidden behind such an alias (the cyclic alias replaced the submodule member) is not visited
+                tangled = star_cycle_dependents(pkg)
+                dmi = [x for x in dmi if not (x[0] in tangled and x[1] not in ("<module>", "__all__") and x[2] is not None and x[3] is not None)]
                 unres = {(x[0], x[1]) for x in dmi if ["unresolved"] in (x[2], x[3])}
                 dmi = [x for x in dmi if ["unresolved"] not in (x[2], x[3])
                        and not (x[1] == "<module>" and tuple(x[0].rsplit(".", 1)) in unres)]
@@ -1443,7 +1474,7 @@ def check_packages(ctx, pkgs, stream, direct=True):
         view.pop("top", None)
         for pb in pres[:3]:
             ctx.property_failure(case, {"presentation": pb}, None)
-        cl = classify(pkg, view, a, ml, ms_view, dmi, leak)
+        cl = classify(pkg, view, a, ml, ms_view, dmi, f5_model)
         ctx.observe("direct", "equal" if not cl else "+".join(sorted({str(f) for _, f in cl})))
         for x, fid in cl:
             ctx.property_failure(case, {"module": x[0], "name": x[1], "griffe": x[2], "cpython": x[3]}, fid)
